@@ -235,3 +235,28 @@ def isnan_real(x):
     if isinstance(x, SX) or (isinstance(x, np.ndarray) and x.dtype == object):
         return False
     return np.isnan(x)
+
+
+@contextlib.contextmanager
+def allow_object_dtype():
+    """the library validates sampling dtypes with utilities.check_dtype_or_none; a dtype derived from symbolic data is `object`.
+    Inside this context that one value is accepted as 'float' (the symbols are real: A-REAL); all other values are checked as usual."""
+    import sys
+    saved = []
+    for name, mod in list(sys.modules.items()):
+        if name.startswith("nifty.cl") and mod is not None and hasattr(mod, "check_dtype_or_none"):
+            orig = mod.check_dtype_or_none
+
+            def wrapped(dtype, domain=None, _orig=orig):
+                if dtype is object or dtype == np.dtype(object):
+                    return
+                if isinstance(dtype, dict):
+                    dtype = {k: (np.float64 if (v is object or v == np.dtype(object)) else v) for k, v in dtype.items()}
+                return _orig(dtype, domain)
+            saved.append((mod, orig))
+            mod.check_dtype_or_none = wrapped
+    try:
+        yield
+    finally:
+        for mod, orig in saved:
+            mod.check_dtype_or_none = orig
